@@ -236,7 +236,7 @@ def r204(prog, chk):
             vals = [v]
         ok = bool(vals)
         for x in vals:
-            common = isinstance(x, ast.Set) and [T(e) for e in x.elts] == ["COMMON_SCRIPT"]
+            common = isinstance(x, ast.Set) and len(x.elts) == 1 and (T(x.elts[0]) == "COMMON_SCRIPT" or getattr(x.elts[0], "const_name", None) == "COMMON_SCRIPT" or A.is_const(x.elts[0], "Zyyy"))
             inter = isinstance(x, ast.BinOp) and isinstance(x.op, ast.BitAnd) and any("knownScripts" in T(side) for side in (x.left, x.right))
             ok = ok and (common or inter)
         chk.ob("R20.4", f"{f.short}|{A.keytext(f.node, r)[:60]}", ok, where(f, r), detail="{COMMON_SCRIPT} or extensions & (knownScripts | DFLT_SCRIPTS)",
